@@ -157,8 +157,11 @@ class MemoryCache(Cache[A]):
         self._cache = {}
 
     def get(self, evaluatable: Evaluatable, options: Options) -> A:
+        # Outside the try: a KeyError raised while the key is computed (user code runs
+        # there) is a failure of the evaluation, not a missing entry
+        key = evaluatable.fingerprint(options)
         try:
-            return self._cache[evaluatable.fingerprint(options)]
+            return self._cache[key]
         except KeyError as e:
             raise CacheGetFailure(evaluatable, options, self) from e
 
